@@ -355,7 +355,7 @@ func runC19(s *Sim) {
 	prevFaulted := false
 	everFaulted := false
 	staleBudget := 0 // after an injected fault up to this many further exchanges may be eaten by late fragments (<= 6 per fault)
-	recovering := 0 // clean calls that failed since the last injected fault (stale frames may still sit in the link)
+	recovering := 0  // clean calls that failed since the last injected fault (stale frames may still sit in the link)
 	for c := 0; c < nCalls && !s.Failed(); c++ {
 		// choose the operation
 		op := wl.Draw(6)
